@@ -120,6 +120,9 @@ class Term:
         
         # Now copy the content of t onto self
         self.__dict__.update(t.__dict__)
+        # The identity token must be that of the new object: t may be freed
+        # and its address reused by an unrelated term.
+        self._id = id(self)
 
     def is_svar(self) -> bool:
         return self.ty == Term.SVAR
